@@ -151,6 +151,17 @@ def work(arg):
             res['viol'] += judge(mk.value, 'point', {'units': cfg, 'shape': spec, 'reached_by': 'conversion from default units'}, target,
                                  {'reached_by': 'conversion'})
             res['nt'] += 1
+    elif kind == 'gapped-index':
+        # a frame cut out of a larger table: row labels with gaps, not starting at 0
+        import pygaps
+        for target in ('string', 'file'):
+            df = g.point_frame(*spec, scale)
+            df.index = [3, 4, 6, 7, 11, 12, 20][:len(df)]
+            iso = pygaps.PointIsotherm(isotherm_data=df, pressure_key='pressure', loading_key='loading', material='gen-mat', adsorbate='N2',
+                                       temperature=77.355 if cfg[6] == 'K' else -195.795, **g.units(cfg), **meta_small)
+            res['viol'] += judge(iso, 'point', {'units': cfg, 'shape': spec, 'row labels': list(df.index)}, target, {'index': 'gapped'})
+            res['ev'] += 1
+            res['nt'] += 1
     elif kind == 'custom-keys':
         import pygaps
         for target in ('string', 'file'):
@@ -189,8 +200,9 @@ def work(arg):
     elif kind == 'model':
         name, how = spec
         for target in ('string', 'file'):
+            extra_kw = dict(rmse=0.0, prange=(0.0, 0.9), lrange=(0.0, 3.5)) if how == 'zero-fields' else {}
             mk = core.call(g.mk_model, cfg, name, meta_small, fitted_dr=(how == 'fitted'),
-                           params=({'K': 3.456789e-06, 'n_m': 4.5123456789} if how == 'small-parameters' else None))
+                           params=({'K': 3.456789e-06, 'n_m': 4.5123456789} if how == 'small-parameters' else None), **extra_kw)
             if not mk.ok:
                 res['viol'].append(core.make_violation({'check': 'cannot-build', 'model': name, 'built': how},
                                                        f'[model] {name} ({how}) with units {cfg}: {mk.brief()}', {'units': cfg, 'model': name}))
@@ -228,6 +240,9 @@ def run(ctx):
                 jobs.append(('model', cfg, (name, 'fitted'), ctx.scale))
             if name == 'Langmuir':
                 jobs.append(('model', cfg, (name, 'small-parameters'), ctx.scale))
+            if name in ('Langmuir', 'Henry', 'Toth'):
+                jobs.append(('model', cfg, (name, 'zero-fields'), ctx.scale))      # a fit error / range limit of exactly 0 is a value, not "missing"
+        jobs.append(('gapped-index', cfg, (7, 'guessable', 'numeric'), ctx.scale))
     res = core.pmap(work, jobs, chunk=8)
     for r in res:
         ctx.add('round_trips', r['ev'], r['nt'])
